@@ -50,8 +50,8 @@ theorem same_record (f1 f2 : Flavour) (key : Bytes) (o : WriteOpts) (chunks : Li
     (fun _ => none) (fun _ => none) s1 s2 (by rw [runFault_none]; exact h1) (by rw [runFault_none]; exact h2)
   have b1 := (wpD_run (writeStream_keyed_wp cfg env cache f1 key o chunks b0 hv hb)).2.2 s1 h1
   have b2 := (wpD_run (writeStream_keyed_wp cfg env cache f2 key o chunks b0 hv hb)).2.2 s2 h2
-  obtain ⟨tm1, ht1, g1⟩ := b1
-  obtain ⟨tm2, ht2, g2⟩ := b2
+  obtain ⟨tm1, ht1, g1, _⟩ := b1
+  obtain ⟨tm2, ht2, g2, _⟩ := b2
   refine ⟨tm1, tm2, g1, ?_, fun t ht => ⟨ht1 t ht, ht2 t ht⟩⟩
   rw [e]; exact g2
 
